@@ -1,0 +1,96 @@
+//go:build verif
+
+// Contracts checked by /verif (govc). Comments only; not part of any normal build.
+// The `layout` directive synthesises requires/ensures from /verif/specs/layouts (DESIGN.md section 3.4).
+
+package smpp34
+
+//@ func (b *Bind) IEncode
+//@   theory T1
+//@   layout enc
+
+//@ func (b *Bind) IDecode
+//@   theory T1
+//@   layout dec
+
+//@ func (b *BindResp) IEncode
+//@   theory T1
+//@   layout enc
+
+//@ func (b *BindResp) IDecode
+//@   theory T1
+//@   layout dec
+
+//@ func (u *Unbind) IEncode
+//@   theory T1
+//@   layout enc
+
+//@ func (u *Unbind) IDecode
+//@   theory T1
+//@   layout dec
+
+//@ func (u *UnBindResp) IEncode
+//@   theory T1
+//@   layout enc
+
+//@ func (u *UnBindResp) IDecode
+//@   theory T1
+//@   layout dec
+
+//@ func (g *GenericNack) IEncode
+//@   theory T1
+//@   layout enc
+
+//@ func (g *GenericNack) IDecode
+//@   theory T1
+//@   layout dec
+
+//@ func (s *SubmitSm) IEncode
+//@   theory T1
+//@   layout enc
+
+//@ func (s *SubmitSm) IDecode
+//@   theory T1
+//@   layout dec
+
+//@ func (s *SubmitSmResp) IEncode
+//@   theory T1
+//@   layout enc
+
+//@ func (s *SubmitSmResp) IDecode
+//@   theory T1
+//@   layout dec
+
+//@ func (d *DeliverSm) IEncode
+//@   theory T1
+//@   layout enc
+
+//@ func (d *DeliverSm) IDecode
+//@   theory T1
+//@   layout dec
+
+//@ func (d *DeliverSmResp) IEncode
+//@   theory T1
+//@   layout enc
+
+//@ func (d *DeliverSmResp) IDecode
+//@   theory T1
+//@   layout dec
+
+//@ func (e *EnquireLink) IEncode
+//@   theory T1
+//@   layout enc
+
+//@ func (e *EnquireLink) IDecode
+//@   theory T1
+//@   layout dec
+
+//@ func (e *EnquireLinkResp) IEncode
+//@   theory T1
+//@   layout enc
+
+//@ func (e *EnquireLinkResp) IDecode
+//@   theory T1
+//@   layout dec
+
+// ---- hand-written below ----
